@@ -70,12 +70,20 @@ def _diverges(c, blk):
     return False
 
 
-def _layout_tests(cond, root):
-    """(positive is_standard_layout on root, negated is_standard_layout on root, stride axes read on root, other stride use)"""
+def _layout_tests(cond, root, flags=None):
+    """(positive is_standard_layout on root, negated is_standard_layout on root, stride axes read on root, other stride use);
+    `flags`: locals bound to `<root>.is_standard_layout()` (local -> root)"""
     pos = neg = False
     axes = set()
     other = False
     for n, anc in with_parents(cond):
+        if flags and n.get("k") == "Path" and n.get("local") in flags and flags[n["local"]] == root:
+            negs = sum(1 for a in anc if a.get("k") == "Unary" and a["op"] == "!")
+            if negs % 2:
+                neg = True
+            else:
+                pos = True
+            continue
         if n.get("k") != "MethodCall":
             continue
         if n["name"] == "is_standard_layout" and root_of(n["recv"]) == root:
@@ -106,6 +114,18 @@ def _tuple_component(pat, idx):
     if pat.get("k") in ("Tuple", "Tup") and len(pat.get("pats", [])) > idx:
         return pat["pats"][idx]
     return pat
+
+
+def _and_only(cond):
+    """the condition is a conjunction (no `||` at the top that would let the arm be taken without the layout test)"""
+    cond = strip(cond)
+    while cond.get("k") in ("DropTemps", "Paren"):
+        cond = strip(cond["e"])
+    if cond.get("k") == "Binary" and cond["op"] == "||":
+        return False
+    if cond.get("k") == "Binary" and cond["op"] == "&&":
+        return _and_only(cond["l"]) and _and_only(cond["r"])
+    return True
 
 
 def _ndim(c, recv):
@@ -314,11 +334,23 @@ def sites(fn, facts=None):
         guarded = None
         partial = None
         unknown_guard = False
+        flags = {}
+        for y in walk(fn["body"]):
+            if y.get("k") == "LetStmt" and y.get("init") is not None and y["pat"].get("k") == "Bind":
+                i1 = peel_refs(y["init"])
+                if i1.get("k") == "MethodCall" and i1["name"] == "is_standard_layout":
+                    flags[y["pat"]["local"]] = root_of(i1["recv"])
+        # `match x.as_slice_memory_order_mut() { Some(flat) if x.is_standard_layout() && .. => .., _ => <fallback> }`: the arm
+        # that receives the buffer is taken only under the layout test
+        if anc and anc[-1].get("k") == "Match" and anc[-1].get("src", "Normal") == "Normal" and anc[-1]["scrut"] is n:
+            binding = [a_ for a_ in anc[-1]["arms"] if any(True for _ in pat_bindings(a_["pat"]))]
+            if binding and all(a_.get("guard") is not None and _layout_tests(a_["guard"], root, flags)[0] and not _layout_tests(a_["guard"], root, flags)[1] and _and_only(a_["guard"]) for a_ in binding):
+                guarded = "match arm guarded by is_standard_layout()"
         for a_i, a in enumerate(anc):
             if a.get("k") == "If":
                 inside_then = a_i + 1 < len(anc) and anc[a_i + 1] is a["then"] or (a_i + 1 == len(anc) and n is a["then"])
                 inside_else = a_i + 1 < len(anc) and a.get("else") is not None and anc[a_i + 1] is a["else"]
-                pos, neg, axes, other = _layout_tests(a["c"], root)
+                pos, neg, axes, other = _layout_tests(a["c"], root, flags)
                 if (pos and inside_then and not neg) or (neg and inside_else and not pos):
                     guarded = "enclosing `if` on is_standard_layout()"
                 if axes or other:
@@ -330,7 +362,7 @@ def sites(fn, facts=None):
         for m, manc in all_nodes:
             if m.get("k") != "If" or m["ln"] > n["ln"] or any(x is m for x in anc):
                 continue
-            pos, neg, axes, other = _layout_tests(m["c"], root)
+            pos, neg, axes, other = _layout_tests(m["c"], root, flags)
             if neg and not pos and _diverges(c, m["then"]):
                 guarded = "earlier diverging test of is_standard_layout()"
             elif pos and not neg and m.get("else") is not None and _diverges(c, m["else"]):
